@@ -40,6 +40,57 @@ struct LoopData {
     closed: u64,
 }
 
+/// the channel as the second sub-source of a user-written composite; the first one (a control ping wrapped in a
+/// TransientSource) goes away in mid-run, which moves the channel to another sub-token at the re-registration
+struct Paired {
+    ctl: calloop::transient::TransientSource<calloop::ping::PingSource>,
+    data: calloop::channel::Channel<u64>,
+}
+
+type PairedErr = Box<dyn std::error::Error + Send + Sync>;
+
+impl calloop::EventSource for Paired {
+    type Event = Event<u64>;
+    type Metadata = ();
+    type Ret = ();
+    type Error = PairedErr;
+    fn process_events<F>(&mut self, r: calloop::Readiness, t: calloop::Token, mut cb: F) -> Result<calloop::PostAction, PairedErr>
+    where
+        F: FnMut(Event<u64>, &mut ()),
+    {
+        let a = self.ctl.process_events(r, t, |(), _| {}).map_err(|e| Box::new(e) as PairedErr)?;
+        let b = self.data.process_events(r, t, |ev, _| cb(ev, &mut ())).map_err(|e| Box::new(e) as PairedErr)?;
+        // the composite is finished when its channel is (the control sub-source manages itself through the
+        // TransientSource wrapper and only ever asks for a re-registration)
+        Ok(if b == calloop::PostAction::Remove { b } else { a | b })
+    }
+    fn register(&mut self, p: &mut calloop::Poll, f: &mut calloop::TokenFactory) -> calloop::Result<()> {
+        self.ctl.register(p, f)?;
+        self.data.register(p, f)
+    }
+    fn reregister(&mut self, p: &mut calloop::Poll, f: &mut calloop::TokenFactory) -> calloop::Result<()> {
+        self.ctl.reregister(p, f)?;
+        self.data.reregister(p, f)
+    }
+    fn unregister(&mut self, p: &mut calloop::Poll) -> calloop::Result<()> {
+        self.ctl.unregister(p)?;
+        self.data.unregister(p)
+    }
+}
+
+fn on_chan_event(ev: Event<u64>, d: &mut LoopData) {
+    match ev {
+        Event::Msg(m) => {
+            d.msgs += 1;
+            hookrec::record(H_MSG, m, 0);
+        }
+        Event::Closed => {
+            d.closed += 1;
+            hookrec::record(H_CLOSED, 0, 0);
+        }
+    }
+}
+
 pub fn bound_of(variant: u32) -> Option<usize> {
     match variant % 6 {
         0 | 1 => None,
@@ -69,18 +120,17 @@ pub fn run(c: &SchedCase) -> ExecOutcome {
             (Tx::S(t), r)
         }
     };
-    let token = h
-        .insert_source(rx, |ev, _, d: &mut LoopData| match ev {
-            Event::Msg(m) => {
-                d.msgs += 1;
-                hookrec::record(H_MSG, m, 0);
-            }
-            Event::Closed => {
-                d.closed += 1;
-                hookrec::record(H_CLOSED, 0, 0);
-            }
-        })
-        .expect("insert");
+    // one case in four: the channel lives inside a composite whose first sub-source disappears in mid-run
+    let paired = c.case % 4 == 3 && !cfg!(miri);
+    let mut ctl_ping = None;
+    let token = if paired {
+        let (p, ps) = calloop::ping::make_ping().expect("ping");
+        ctl_ping = Some(p);
+        o.cov("channel-is-second-sub-source-of-a-composite");
+        h.insert_source(Paired { ctl: ps.into(), data: rx }, |ev, _, d: &mut LoopData| on_chan_event(ev, d)).expect("insert")
+    } else {
+        h.insert_source(rx, |ev, _, d: &mut LoopData| on_chan_event(ev, d)).expect("insert")
+    };
     o.cov(&format!("bound:{}", bound.map(|b| b.to_string()).unwrap_or_else(|| "unbounded".into())));
     let k = c.threads.max(1);
     let scripts: Vec<Vec<COp>> = (0..k)
@@ -162,7 +212,13 @@ pub fn run(c: &SchedCase) -> ExecOutcome {
         let t0 = Instant::now();
         let mut idle_streak = 0u32;
         let mut parked_streak = 0u32;
+        let mut rounds = 0u32;
         while done.load(Ordering::SeqCst) < k {
+            rounds += 1;
+            if rounds == 3 {
+                // the control sub-source goes away: the composite is re-registered and the channel gets another sub-token
+                drop(ctl_ping.take());
+            }
             hookrec::record(H_DISPATCH_BEGIN, 0, 0);
             let before = data.msgs + data.closed;
             let to = if idle_streak > 3 { Duration::from_millis(20) } else { Duration::from_millis(1) };
